@@ -1,4 +1,6 @@
 import NanoVerif.Model.Config
+import NanoVerif.Proofs.Csv
+import NanoVerif.Proofs.Naming
 import NanoVerif.Props.C04
 /-
 C10 — What the driver resolves is exactly what the build steps see.
@@ -24,5 +26,58 @@ theorem inventory_closed : inventoryClosed = true := by decide +kernel
 /-- a value TOML cannot carry (`None`, e.g. the default `clipbox_quantization`) is dropped by the writer and
 restored from the default by the loader -/
 theorem none_roundtrips {α} (d : α) : popFlag (none : Option α) none d = d := rfl
+
+/-- **C10.4 CSV**: for EVERY non-empty row of strings — file names with spaces (leading ones included),
+commas, quotes, any unicode — the reader `csv.reader(skipinitialspace=True)` applied to what
+`GlyphMapping.csv_line` writes returns the row unchanged.  (Model of Python's csv restricted to one-line
+rows; tied to the real module on every run.) -/
+theorem csv_roundtrip (fields : List (List Char)) (hne : fields ≠ []) :
+    readRow true (csvLine fields) = some fields := NanoVerif.csv_roundtrip fields hne
+
+/-- the glyph-map row of a mapping: paths, glyph name, then `%04x` code points (or one empty field) -/
+def glyphmapRow (svg png name : List Char) (cps : List Nat) : List (List Char) :=
+  [svg, png, name] ++ (if cps = [] then [[]] else cps.map hex4)
+
+/-- **C10.4 glyph map**: paths and glyph name come back as written, and the hex fields parse back to the
+code points, for any strings and any code point sequence -/
+theorem glyphmap_roundtrip (svg png name : List Char) (cps : List Nat) (hcp : ∀ n ∈ cps, n < 16 ^ 16) :
+    readRow true (csvLine (glyphmapRow svg png name cps)) = some (glyphmapRow svg png name cps) ∧
+    (cps ≠ [] → ((glyphmapRow svg png name cps).drop 3).map parseHex = cps) := by
+  refine ⟨NanoVerif.csv_roundtrip _ (by simp [glyphmapRow]), ?_⟩
+  intro hne
+  simp only [glyphmapRow, if_neg hne, List.cons_append, List.nil_append, List.drop_succ_cons, List.drop_zero, List.map_map]
+  clear hne
+  induction cps with
+  | nil => rfl
+  | cons n l ih =>
+    simp only [List.map_cons, Function.comp]
+    rw [parseHex_hex4 n (hcp n (by simp))]
+    congr 1
+    exact ih (fun z hz => hcp z (by simp [hz]))
+
+/-- **C10.5 file names**: `emoji_u` + lowercase hex joined by `_` + extension is decoded to exactly the
+sequence it was printed from (any length, any scalar values) -/
+theorem fromFilename_recovers (c : Nat) (cs : List Nat) (hlt : ∀ n ∈ c :: cs, n < 0x110000) :
+    fromFilename ("emoji_u".toList ++ (joinU ((c :: cs).map toHex) ++ ".svg".toList)) = some (c :: cs) := by
+  apply NanoVerif.fromFilename_recovers c cs ".svg".toList (fun n hn => by have := hlt n hn; omega)
+  intro x hx
+  have : x = '.' := by simpa using hx.symm
+  subst this
+  decide
+
+/-- **C10.5 glyph names are injective**: two sequences over scalar values above U+0020 whose names need no
+hashing and are equal, are the same sequence -/
+theorem glyphName_injective (H : List Char → List Char) (l1 l2 : List Nat)
+    (h1 : ∀ cp ∈ l1, 0x20 < cp ∧ cp < 0x110000) (h2 : ∀ cp ∈ l2, 0x20 < cp ∧ cp < 0x110000)
+    (s1 : ¬ (joinU (l1.map cpName)).length > Gen.MAX_NAME_LEN) (s2 : ¬ (joinU (l2.map cpName)).length > Gen.MAX_NAME_LEN)
+    (h : glyphName H l1 = glyphName H l2) : l1 = l2 :=
+  NanoVerif.glyphName_injective H l1 l2 h1 h2 s1 s2 h
+
+/-- non-vacuity: a ZWJ sequence and a letter sequence meet the hypotheses -/
+example : (∀ cp ∈ [0x1F469, 0x200D, 0x1F467], 0x20 < cp ∧ cp < 0x110000) ∧
+    ¬ (joinU ([0x1F469, 0x200D, 0x1F467].map cpName)).length > Gen.MAX_NAME_LEN := by decide +kernel
+
+/-- the hypothesis U+0020 < cp matters: U+000A and the letter `a` would both be named "a" -/
+theorem cpName_collides_below_space : cpName 0xa = cpName 0x61 := by decide +kernel
 
 end NanoVerif.C10
